@@ -1,0 +1,29 @@
+//go:build verif
+
+// Contracts for package geo, read by the VC generator in /verif (govc). Comments only.
+// Floats are abstract here: + - * / are uninterpreted operations, so "equal" means the same
+// rounded operations applied in the same order (exact equality, no tolerance).
+
+package geo
+
+// ringArea is a pure deterministic function of the ring's vertices (`function`)
+//@ func ringArea(r)
+//@   floats abstract
+//@   function
+
+// polygon area = |outer ring| minus the |holes|, folded left to right
+//@ spec outerMinusHoles(p orb.Polygon, n int) float64 = ite(n <= 1, math.Abs(ringArea(p[0])), outerMinusHoles(p, n-1) - math.Abs(ringArea(p[n-1])))
+//@ func polygonArea(p)
+//@   floats abstract
+//@   function
+//@   ensures len(p) == 0 ==> same(result, 0.0)
+//@   ensures len(p) >= 1 ==> same(result, outerMinusHoles(p, len(p)))
+//@   loop 1: invariant 1 <= i && i <= len(p) && same(sum, outerMinusHoles(p, i))
+
+// multi-polygon area = sum of the member areas, folded left to right from 0
+//@ spec sumPolygons(mp orb.MultiPolygon, n int) float64 = ite(n <= 0, 0.0, sumPolygons(mp, n-1) + polygonArea(mp[n-1]))
+//@ func multiPolygonArea(mp)
+//@   floats abstract
+//@   pure
+//@   ensures same(result, sumPolygons(mp, len(mp)))
+//@   loop 1: invariant -1 <= rangeindex && rangeindex < len(mp) && same(sum, sumPolygons(mp, rangeindex + 1))
